@@ -84,18 +84,26 @@ func callsOf(rd roundDesc) []callDesc {
 }
 
 // child: runs rounds until the deadline; prints "ROUND <json>" before each round; on a mismatch prints "MISMATCH <json>" and exits 1.
-func child(seed int64, seconds float64, g int, only []roundDesc, repeat int) {
+func child(seed int64, seconds float64, g int, only []roundDesc, repeat int, ref []string) {
 	out := bufio.NewWriter(os.Stdout)
 	deadline := time.Now().Add(time.Duration(seconds * float64(time.Second)))
 	next := rounds(seed)
 	ncalls := 0
 	used := map[string]bool{}
+	first := true
 	runOne := func(rd roundDesc) {
 		rd.Goroutines = g
 		b, _ := json.Marshal(rd)
 		fmt.Fprintf(out, "ROUND %s\n", b)
 		out.Flush()
-		m := c19.RunMix(rd.PoolSeed, rd.BatchSeed, rd.K, g, rd.SchedSeed, rd.Focus)
+		// the first round of a process starts its goroutines on cold package-level state and is compared with the solo results computed by
+		// another fresh process; the later rounds run alone, concurrently, alone again
+		cfg := c19.MixCfg{PoolSeed: rd.PoolSeed, BatchSeed: rd.BatchSeed, K: rd.K, G: g, SchedSeed: rd.SchedSeed, Focus: rd.Focus}
+		if first {
+			cfg.Cold, cfg.Ref = true, ref
+			first = false
+		}
+		m := c19.RunMixCfg(cfg)
 		ncalls += rd.K * (g + 1)
 		for _, c := range callsOf(rd) {
 			used[c.Name] = true
@@ -160,9 +168,56 @@ func main() {
 	replayFile := flag.String("replay", "", "replay JSON written by an earlier run")
 	repeat := flag.Int("repeat", 20, "how many times a replay repeats its round")
 	profile := flag.Bool("profile", false, "time every catalogue entry")
+	refFile := flag.String("ref", "", "internal: JSON file with the solo results of the first round, computed by a fresh process")
+	soloRef := flag.String("soloref", "", "internal: compute the solo results of round 0 of -seed in this (fresh) process and write them to the file")
+	detcheck := flag.Int("detcheck", 0, "run every catalogue entry N times alone, twice each, and list the entries whose rendered result differs between the two runs (with and without sorting of the result list)")
 	sliceSec := flag.Float64("slice", 0, "seconds per child process (0: 4 s, or 20 s for runs longer than 2 minutes)")
 	flag.Parse()
 
+	if *soloRef != "" {
+		rd := rounds(*seed)(0)
+		b, _ := json.Marshal(c19.SoloRef(rd.PoolSeed, rd.BatchSeed, rd.K, rd.Focus))
+		if err := os.WriteFile(*soloRef, b, 0o644); err != nil {
+			fmt.Println("BROKEN vrace soloref:", err)
+			os.Exit(3)
+		}
+		return
+	}
+	if *detcheck > 0 {
+		// which entries are not a function of their input even sequentially (map iteration order)?
+		for i, c := range c19.Catalogue {
+			ordered, sorted := 0, 0
+			for n := 0; n < *detcheck; n++ {
+				p := c19.NewPool(int64(n % 7))
+				in := c19.Inst{Idx: i, Seed: int64(1000 + n)}
+				a1, a2 := c19.RunInstAs(p, in, false), c19.RunInstAs(p, in, false)
+				b1, b2 := c19.RunInstAs(p, in, true), c19.RunInstAs(p, in, true)
+				if a1 != a2 {
+					ordered++
+				}
+				if b1 != b2 {
+					sorted++
+				}
+			}
+			flag := " "
+			if c.Unordered {
+				flag = "U"
+			}
+			verdict := "deterministic"
+			switch {
+			case sorted > 0:
+				verdict = "VARIES EVEN AFTER SORTING THE RESULT LIST"
+			case ordered > 0 && !c.Unordered:
+				verdict = "varies: must be marked Unordered"
+			case ordered > 0:
+				verdict = "varies in order only (set-valued)"
+			case c.Unordered:
+				verdict = "marked Unordered but never varied"
+			}
+			fmt.Printf("%s %-82s ordered-diff %3d/%d sorted-diff %3d  %s\n", flag, c.Name, ordered, *detcheck, sorted, verdict)
+		}
+		return
+	}
 	if *profile {
 		p := c19.NewPool(*seed)
 		for i, c := range c19.Catalogue {
@@ -192,7 +247,13 @@ func main() {
 				os.Exit(3)
 			}
 		}
-		child(*seed, *seconds, *g, only, *repeat)
+		var ref []string
+		if *refFile != "" {
+			if b, err := os.ReadFile(*refFile); err == nil {
+				json.Unmarshal(b, &ref)
+			}
+		}
+		child(*seed, *seconds, *g, only, *repeat, ref)
 		return
 	}
 
@@ -249,7 +310,13 @@ func main() {
 				d = remaining
 			}
 			childSeed = *seed*1000 + int64(sl)
-			args = []string{"-child", "-seed", fmt.Sprint(childSeed), "-seconds", fmt.Sprint(d), "-goroutines", fmt.Sprint(*g)}
+			refPath := filepath.Join(*outDir, "vrace-soloref.json")
+			os.Remove(refPath)
+			if out, err := exec.Command(self, "-soloref", refPath, "-seed", fmt.Sprint(childSeed)).CombinedOutput(); err != nil {
+				fmt.Printf("BROKEN vrace: the solo reference process failed: %v %s\n", err, strings.ReplaceAll(string(out), "\n", " | "))
+				os.Exit(2)
+			}
+			args = []string{"-child", "-seed", fmt.Sprint(childSeed), "-seconds", fmt.Sprint(d), "-goroutines", fmt.Sprint(*g), "-ref", refPath}
 		}
 		cmd := exec.Command(self, args...)
 		cmd.Env = append(os.Environ(), "GORACE=halt_on_error=1 exitcode=66")
